@@ -290,7 +290,7 @@ def strip_attrs_and_docs(text, log):
     toks = lex(text)
     out = []
     i = 0
-    n_attr = n_doc = 0
+    n_attr = n_doc = n_cfg = 0
     code_idx = [k for k, t in enumerate(toks) if t[0] in CODE]
     k = 0
     while k < len(toks):
@@ -318,13 +318,33 @@ def strip_attrs_and_docs(text, log):
                         if depth == 0:
                             break
                     j += 1
+                attr_text = "".join(text[toks[x][1]:toks[x][2]] for x in range(k, j + 1)).replace(" ", "")
                 n_attr += 1
                 k = j + 1
+                if attr_text in ("#[cfg(windows)]", '#[cfg(not(any(target_os="linux",target_os="android")))]'):
+                    # T1c: this sandbox verifies the unix build: the annotated statement / block / item is dropped with its attribute
+                    while k < len(toks) and toks[k][0] in ("ws", "lcomment", "bcomment"):
+                        k += 1
+                    depth = 0
+                    while k < len(toks):
+                        t = text[toks[k][1]:toks[k][2]]
+                        if toks[k][0] == "punct" and t in "{([":
+                            depth += 1
+                        elif toks[k][0] == "punct" and t in "})]":
+                            depth -= 1
+                            if depth == 0 and t == "}":
+                                k += 1
+                                break
+                        elif toks[k][0] == "punct" and t == ";" and depth == 0:
+                            k += 1
+                            break
+                        k += 1
+                    n_cfg += 1
                 continue
         out.append(s)
         k += 1
     if n_attr or n_doc:
-        log.append({"rule": "T1", "attrs_dropped": n_attr, "doc_comments_dropped": n_doc})
+        log.append({"rule": "T1", "attrs_dropped": n_attr, "doc_comments_dropped": n_doc, "cfg_windows_code_dropped": n_cfg})
     return "".join(out)
 
 
